@@ -65,6 +65,12 @@ prop("C03", True,
      note="Trusted: go/ssa; the generated lexer corresponds to SyslLexer.g4. NOT decided: that two layouts of one specification compile to equal models, acceptance preservation, anything about the ANTLR-side token rules.",
      design="DESIGN.md §3 C03")
 
+prop("C04", True,
+     technique="dominance/control-dependence rules on stores of fresh containers and elements into the shared module tree (SSA, access-path matching), listener identity dataflow",
+     text="Decides structural necessary conditions of lossless merging: in the tree listener every store of a fresh (empty) map/slice/message into a container field of the shared module tree (Module.Apps, Application.Types/Endpoints/Views/Wrapped/Attrs/Mixin2, Type.Attrs, Endpoint.Attrs/Stmt/Param, AttrDefs) of an object that is not itself being constructed is control-dependent on that very location being nil (a call that receives the existing content counts as a merge); every insertion of a freshly allocated element into Apps/Types/Endpoints/Views is control-dependent on a failed look-up of the same map and key; the per-file loop walks every file with the one listener it was given and returns that listener's module; the type callback binds the listener's field map to the existing AttrDefs when the type already exists. The validated 're-initialise the type map on the third re-open' mutation and any unguarded re-initialisation are reported; kinds that are replaced on re-declaration by design are ten named exceptions.",
+     note="Trusted: go/ssa; accessor calls (currentApp()) return the same object within a callback. NOT decided: independence from block order and import order, equality with the joined specification. Two baseline rows (collector statements, event attributes replaced on re-declaration) are reported as unconfirmed.",
+     design="DESIGN.md §3 C04")
+
 for i in range(1, 21):
     pid = "C%02d" % i
     if pid not in P:
